@@ -1,6 +1,7 @@
 import ShuttleProofs.C17
 open ShuttleProofs.C17
 
+-- Part 1: kernel
 #print axioms wake_sets_woken_and_unblocks_sleeper
 #print axioms wake_request
 #print axioms finished_task_wake_is_noop
@@ -18,3 +19,27 @@ open ShuttleProofs.C17
 #print axioms detached_is_never_cleared
 #print axioms runSegment_ktrace
 #print axioms reachEv_of_reachN
+-- Part 2: JoinHandle / Wrapper / abort
+#print axioms Lts.reach_inv
+#print axioms Lts.join_result_once
+#print axioms Lts.join_after_ready_nohandle
+#print axioms Lts.pollJoin_takes
+#print axioms Lts.cancelled_iff_abort_before_completion
+#print axioms Lts.pollBegin_aborted
+#print axioms Lts.pollBegin_not_aborted
+#print axioms Lts.abort_mid_poll
+#print axioms Lts.done_no_further_steps
+#print axioms Lts.abort_idempotent
+#print axioms Lts.abort_finished_is_noop
+#print axioms Lts.drop_detaches_not_cancels
+#print axioms Lts.flag_only_by_abort
+#print axioms Lts.cancelled_only_if_aborted
+-- Part 3: poll loops
+#print axioms task_loop_polls_until_ready
+#print axioms task_loop_aborted_never_polls
+#print axioms task_loop_ready_finishes
+#print axioms task_loop_pending_suspends
+#print axioms block_on_returns_output_after_ready
+#print axioms block_on_suspends_while_pending
+#print axioms abort_eq
+#print axioms finish_is_publish
